@@ -40,6 +40,11 @@ class VName(VInt):
     __slots__ = ()
 
 
+class VPyInt(VInt):
+    """a parameter declared `int` by its contract: a genuine Python integer, never an abstracted name - so `x == "text"` is False"""
+    __slots__ = ()
+
+
 def name_code(s):
     return 10 ** 6 + int.from_bytes(s.encode("utf-8"), "big")
 
